@@ -26,7 +26,7 @@ LEVEL_TEXT = (
     "guarded by it - exactly the defect found (Input.party / Input.input). Not decided: that the comparisons use the right "
     "bound values (value level; one such defect, max_reg_count == 0, was found by reading and repaired), and 'validation "
     "accepts every compiler-produced circuit'."
-    " G2 also requires the output registers (which eval reads) to be looked up in the written-set.")
+    " G2 also requires the output registers (which eval reads) to be looked up in the written-set. G8: an upper bound written as n.saturating_sub(1) is used only behind a rejecting n == 0 test.")
 LEVEL_NOTE = ("Trusted: rustc MIR; the Index<Reg> impls index by reg.0; Circuit::wires maps each Gate to the Wire of the same "
               "variant with the same operands (checked as rule G1b).")
 EXPLANATION = ("For register_circuit::Circuit and circuit::Circuit: required = origins of every Index/IndexMut operand and "
